@@ -28,6 +28,9 @@ type Op struct {
 	Node int
 	Ref  string
 	Ann  bool // tag with an annotated descriptor
+	// Foreign (with Ann): the annotated descriptor also carries the reference-name annotation of a name it
+	// was resolved under somewhere else ("elsewhere": a layout read from disk hands out such descriptors)
+	Foreign bool
 }
 
 func (o Op) Str(d *DAG) string {
@@ -39,6 +42,9 @@ func (o Op) Str(d *DAG) string {
 	case "push", "delete", "fetch", "exists", "preds":
 		return o.Kind + "(" + n + ")"
 	case "tag":
+		if o.Ann && o.Foreign {
+			return "tag(" + n + "+ann+ref.name=elsewhere," + o.Ref + ")"
+		}
 		if o.Ann {
 			return "tag(" + n + "+ann," + o.Ref + ")"
 		}
@@ -110,7 +116,11 @@ func ApplyOCI(st *oci.Store, d *DAG, op Op) error {
 	case "pushbad":
 		return st.Push(ctx, BadManifestDesc(), bytes.NewReader(BadManifestBytes))
 	case "tag":
-		return st.Tag(ctx, TagDesc(d, op.Node, op.Ann), op.Ref)
+		desc := TagDesc(d, op.Node, op.Ann)
+		if op.Foreign {
+			desc.Annotations = map[string]string{"verif.note": d.Nodes[op.Node].Name, ocispec.AnnotationRefName: "elsewhere"}
+		}
+		return st.Tag(ctx, desc, op.Ref)
 	case "untag":
 		return st.Untag(ctx, op.Ref)
 	case "delete":
@@ -303,7 +313,7 @@ func Observe(st ReadStore, d *DAG, refs []string, digests bool) string {
 				extra += " extra-annotation:" + k
 			}
 		}
-		if rn, ok := desc.Annotations[ocispec.AnnotationRefName]; ok && rn != r {
+		if rn, ok := desc.Annotations[ocispec.AnnotationRefName]; ok && rn != r && rn != "elsewhere" {
 			// the reference-name annotation may be absent (live store) or name r (reopened store), never another reference
 			extra += " refname-of-another-reference:" + rn
 		}
